@@ -68,12 +68,12 @@ Proof.
   - apply IH. exact H.
 Qed.
 
-Lemma index_of_nth x (l : list Z) n : index_of Z.eqb x l = Some n -> exists y, nth_error l n = Some y.
+Lemma index_of_nth eqb x (l : list Z) n : index_of eqb x l = Some n -> exists y, nth_error l n = Some y.
 Proof.
   revert n. induction l as [|a l IH]; intros n H; cbn in H; [discriminate|].
-  destruct (Z.eqb a x).
+  destruct (eqb a x).
   - inversion H; subst. exists a. reflexivity.
-  - destruct (index_of Z.eqb x l) as [m|]; [|discriminate]. inversion H; subst.
+  - destruct (index_of eqb x l) as [m|]; [|discriminate]. inversion H; subst.
     destruct (IH m eq_refl) as [y Hy]. exists y. exact Hy.
 Qed.
 
@@ -459,8 +459,8 @@ Section Step.
           apply del_event. exact Hx.
       + cbn [bind]. eapply law_raise; [cbn [builtin]; fold i; unfold pop, getitem_int; rewrite R; reflexivity|left; reflexivity].
     - (* Remove *)
-      unfold remove. destruct (index_of Z.eqb v l) as [n|] eqn:IX.
-      + destruct (index_of_nth v l n IX) as [x Hx]. rewrite Hx.
+      unfold remove. destruct (index_of py_eq v l) as [n|] eqn:IX.
+      + destruct (index_of_nth py_eq v l n IX) as [x Hx]. rewrite Hx.
         eapply law_event; [cbn [builtin]; unfold remove; rewrite IX; reflexivity|apply del_event; exact Hx].
       + eapply law_raise; [cbn [builtin]; unfold remove; rewrite IX; reflexivity|left; reflexivity].
     - (* Reverse *)
